@@ -7,7 +7,8 @@ from ..facts import callee_path, trace, is_place, op_local
 TEXT = ('For every struct field of type CommandReader<_> in the crate: exactly one read site, outside loops of its own '
         'function, in a function reachable from Renderer::on_start_processing (decode-scheduler readers: from '
         'DecodeScheduler::run) and not from Renderer::process, with the value consumed; every CommandWriter<_> field has '
-        'a write site off the audio thread; reader and writer of one command come from one command_writer_and_reader() '
+        'a write site off the audio thread, and every function that writes a command writes it on every path that does not '
+        'return an error (no state-dependent skipping); reader and writer of one command come from one command_writer_and_reader() '
         'call; CommandReader::read yields Some only when the triple buffer reports an update; newly inserted resources '
         'are drained in the same callback; type-level compile_fail witnesses (no Clone, &mut receivers, Send+Copy payload) with compiling twins. The interleaving semantics of triple_buffer are trusted.')
 TECHNIQUE = 'MIR field-coverage / call-graph reachability / ordering rules + compile_fail witnesses'
@@ -182,6 +183,7 @@ def run(ctx, R, tier):
     guard(F, R)
     first(F, R)
     once(F, R)
+    write_unconditional(F, R)
     from ..witness import run_witnesses
     run_witnesses(R, 'C07')
 
@@ -341,6 +343,35 @@ def first(F, R):
                 'the first callback would be applied one callback late or lost)' % (fn, field),
                 detail={'owner': fn, 'storage': field}, where=b.where(ra[0]))
     R.floor('B.C07.first', n, 8)
+
+
+def write_unconditional(F, R):
+    """A command issued on a handle is written, whatever the handle believes the current state to be: in every function
+    that writes a command, each path to a return passes a CommandWriter::write (directly or in a closure handed to a call),
+    except paths that report an error to the caller (`Err(..)`, e.g. a send route that does not exist).  A setter that
+    skips the write when a cached / shared value already equals the argument drops the LAST of two commands issued between
+    two callbacks, because that value is only refreshed by the audio thread."""
+    from ..rules import op_sites
+    n = 0
+    for b in F.bodies:
+        if b.krate != 'kira' or '{closure' in b.path:
+            continue
+        ws = set(op_sites(F, b, lambda p, t: p == 'command::CommandWriter::<T>::write'))
+        if not ws:
+            continue
+        n += 1
+        bad = None
+        for p in explore(b):
+            if p.end != 'return' or (set(p.blocks) & ws):
+                continue
+            ret = str(p.ret)
+            if 'Result::Err' in ret or '::Err(' in ret or 'from_residual' in ret:
+                continue
+            bad = [(d[:80], l) for _, d, l in p.decisions][-3:]
+        R.check(bad is None, 'B.C07.write', b.path,
+                '%s can return without writing its command (after %s): a command issued on the handle is dropped on that path'
+                % (b.path, bad), detail={'writes': len(ws)}, where=b.file)
+    R.floor('B.C07.write', n, 60)
 
 
 def once(F, R):
